@@ -6,7 +6,7 @@
 #include "../C01/hops.h"
 
 static int64_t g_add0;                           /* add_count as passed (ghost copy pinned by the precondition) */
-static struct tq *g_from;
+static int g_from;                                /* Q_ID of addfrom */
 #define SAME (self == addfrom)
 /* per-call operation counts agree: every popped task got ONE thread object, was freed once, inserted, counted, un-staged
  * (on the queue it was popped from) and queued once */
@@ -14,7 +14,7 @@ static struct tq *g_from;
 #define ADDNEW_INV(self, addfrom) \
   (vx_exc == 0 && OWNS(lk) && g_pops >= 0 && g_pops <= VX_BIG && add_count == g_add0 - g_pops && (g_add0 < 0 || g_pops <= g_add0) && \
    added == (size_t) g_pops && CONVERTED(g_pops) && g_ins_fail == 0 && \
-   (task == NULL || task == &g_victim_task || task == &g_other_task) && \
+   (task == 0 || task == 1 || task == 2) && \
    (addfrom)->gs_pops == g_pops && (addfrom)->gs_decs == g_pops && (addfrom)->gs_incs == 0 && (addfrom)->gs_pushes == 0 && \
    (addfrom)->gs_owed == 0 && (addfrom)->gs_resv == 0 && NTRANGE(addfrom, 4) && NTINV(addfrom) && \
    (SAME || ((self)->gs_pops == 0 && (self)->gs_decs == 0 && (self)->gs_incs == 0 && (self)->gs_pushes == 0 && (self)->gs_owed == 0 && (self)->gs_resv == 0 && NTINV(self))) && \
@@ -24,12 +24,12 @@ static struct tq *g_from;
 
 //@FUNC
 size_t add_new(struct tq *self, int64_t add_count, struct tq *addfrom, struct ulock *lk, bool steal)
-__CPROVER_requires(self == g_self && addfrom == g_from && add_count == g_add0 && add_count >= -1 && steal == g_expect_steal)
+__CPROVER_requires(self == g_self && Q_ID(addfrom) == g_from && g_from != 0 && add_count == g_add0 && add_count >= -1 && steal == g_expect_steal)
 __CPROVER_requires(OWNS(lk) && lk->m == &self->mtx_ && vx_exc == 0 && g_pops == 0 && CONVERTED(0) && g_ins_fail == 0 && g_erases == 0 && g_map_decs == 0)
 __CPROVER_requires(addfrom->gs_pops == 0 && addfrom->gs_decs == 0 && addfrom->gs_incs == 0 && addfrom->gs_pushes == 0 && addfrom->gs_owed == 0 && addfrom->gs_resv == 0 && NTRANGE(addfrom, 8) && NTINV(addfrom))
 __CPROVER_requires(self->gs_pops == 0 && self->gs_decs == 0 && self->gs_incs == 0 && self->gs_pushes == 0 && self->gs_owed == 0 && self->gs_resv == 0 && NTRANGE(self, 8) && NTINV(self))
 __CPROVER_requires(MAPRANGE(self, 8) && MAPINV(self) && self->work_items_count_ >= 0 && self->work_items_count_ <= VX_BIG)
-__CPROVER_requires(VP_OK && !gv_mine && gv_staged_q == addfrom && g_v_pops == 0 && g_v_cto == 0 && g_v_ins == 0 && g_v_sched == 0)
+__CPROVER_requires(VP_OK && !gv_mine && g_v_pops == 0 && g_v_cto == 0 && g_v_ins == 0 && g_v_sched == 0)
 /* (1) un-staging is accounted on the queue the task was popped from: one decrement of addfrom's new_tasks_count_ per pop,
  *     after the pop (asserted at the decrement), none left owing at exit -- on the exception path too */
 __CPROVER_ensures(addfrom->gs_pops == g_pops && addfrom->gs_decs == g_pops && addfrom->gs_owed == 0 && addfrom->gs_resv == 0 && addfrom->gs_incs == 0 && addfrom->gs_pushes == 0 && NTINV(addfrom))
@@ -45,23 +45,21 @@ __CPROVER_ensures(vx_exc != 0 ==> (vx_exc == error_out_of_memory && g_ins_fail =
 __CPROVER_ensures(g_v_pops <= 1 && g_v_cto == g_v_pops && g_v_ins == g_v_pops && g_v_sched == g_v_pops && !gv_mine && VP_OK)
 /* (6) at most add_count conversions when a limit is given; none for 0 */
 __CPROVER_ensures(g_add0 >= 0 ==> g_pops <= g_add0)
-__CPROVER_assigns(__CPROVER_object_whole(self), __CPROVER_object_whole(addfrom), lk->owns, HOPS_GHOST)
+__CPROVER_assigns(g_q0, g_q1, lk->owns, G)
 //@LIFT add_new_body
 
 void harness(void)
 {
-  static struct tq q0, q1;
   hops_ghost_init();
-  hops_queue_init(&q0); hops_queue_init(&q1);
-  hops_task_init(&g_victim_task); hops_task_init(&g_other_task); hops_task_init(&g_new_task);
-  struct tq *self = &q0;
-  struct tq *from = nondet_bool() ? &q0 : &q1;
-  g_self = self; g_from = from;
+  hops_queue_init(&g_q0); hops_queue_init(&g_q1);
+  struct tq *self = &g_q0;
+  struct tq *from = nondet_bool() ? &g_q0 : &g_q1;
+  G.self = 1; g_from = Q_ID(from);
   /* the victim: staged in the source queue, or anywhere else it may be */
-  gv_staged_q = from; from->gs_victim = nondet_bool();
+  from->gs_victim = nondet_bool();
   gv_map = nondet_bool(); gv_queued = nondet_bool(); gv_term = nondet_bool(); gv_heap = nondet_bool();
-  g_map = nondet_long(); q0.thread_map_count_ = g_map;
-  struct ulock lk; lk.m = &q0.mtx_; lk.owns = true; q0.mtx_.held = true;
+  g_map = nondet_long(); g_q0.thread_map_count_ = g_map;
+  struct ulock lk; lk.m = &g_q0.mtx_; lk.owns = true; g_q0.mtx_.held = true;
   g_add0 = nondet_i64(); g_expect_steal = nondet_bool();
   bool was_staged = from->gs_victim;
   size_t added = add_new(self, g_add0, from, &lk, g_expect_steal);
@@ -70,8 +68,8 @@ void harness(void)
   if (vx_exc == 0 && added == 2) VX_REACH("two_converted");
   if (vx_exc == 0 && g_add0 > 0 && added == (size_t) g_add0) VX_REACH("limit_reached");
   if (vx_exc == 0 && g_add0 == -1 && added == 3) VX_REACH("unlimited");
-  if (g_v_sched == 1 && from == &q1) VX_REACH("victim_stolen_from_other_queue_and_queued_here");
-  if (g_v_sched == 1 && from == &q0) VX_REACH("victim_converted_in_own_queue");
+  if (g_v_sched == 1 && from == &g_q1) VX_REACH("victim_stolen_from_other_queue_and_queued_here");
+  if (g_v_sched == 1 && from == &g_q0) VX_REACH("victim_converted_in_own_queue");
   if (was_staged && g_v_pops == 0 && !from->gs_victim) VX_REACH("victim_taken_by_another_converter");
   if (was_staged && g_v_pops == 0 && from->gs_victim) VX_REACH("victim_still_staged");
   if (vx_exc != 0) VX_REACH("map_refused_exception");
